@@ -142,9 +142,12 @@ PROPS['C13'] = dict(
           'in study metadata): a policy rebuilt before a chosen subset of rounds suggests exactly what a policy kept alive '
           'suggests, also when early trials complete after later ones', '2 seeds x batch 3/5 x 4 completion patterns x 6 '
           'restart subsets', no_validate=True),
+        O('C13.eagle_long_restart', 'harness.c13_evolution', 'eagle_long_restart', 200, 600,
+          'eagle strategy over a long sequential study (1000 trials: flies are removed from the pool after many unsuccessful '
+          'moves): restarted every 1st / 5th / 97th step = kept alive', '2 seeds x 3 restart periods', no_validate=True),
         O('C13.nsga2_restart', 'harness.c13_evolution', 'nsga2_restart', 300, 900,
           'NSGA-II: fed the same history, the restarted twin has the same population, phase and trial counter as the '
-          'instance kept alive, at every round', '2 spaces x 2 seeds x batch 2/3/5 x 4 completion patterns x 6 restart subsets',
+          'instance kept alive, at every round (one space with diverged runs reporting an infinite loss)', '3 spaces x 2 seeds x batch 2/3/5 x 4 completion patterns x 6 restart subsets',
           no_validate=True),
     ] + [
         O('C13.eagle_restart_all_s%d' % k, 'harness.c13_evolution', 'eagle_restart', None, 1500,
